@@ -36,6 +36,8 @@ def idx(a, i): return {"k": "idx", "a": a, "i": i}
 def deref(e): return {"k": "deref", "e": e}
 def mem(e, f): return {"k": "mem", "e": e, "f": f}
 def addr(l): return {"k": "addr", "l": l}
+def sizeof_(l): return {"k": "sizeof", "l": l}
+def s_vla(n, t, length): return {"k": "vla", "n": n, "t": t, "len": length}
 def incdec(l, dec=False, post=False): return {"k": "incdec", "l": l, "dec": dec, "post": post}
 def asg_e(op, l, r): return {"k": "asg", "op": op, "l": l, "r": r}
 
@@ -141,6 +143,8 @@ def rexpr(e, structs):
         return "%s.%s" % (r(e["e"]), e["f"])
     if k == "addr":
         return "(&%s)" % r(e["l"])
+    if k == "sizeof":
+        return "sizeof(%s)" % r(e["l"])
     if k == "incdec":
         op = "--" if e["dec"] else "++"
         return "(%s%s)" % (r(e["l"]), op) if e["post"] else "(%s%s)" % (op, r(e["l"]))
@@ -170,6 +174,8 @@ def rstmt(s, structs, ind=1):
         if "init" in s:
             d += " = " + rinit(s["init"], structs)
         return t + d + ";\n"
+    if k == "vla":
+        return t + ctype(s["t"], structs, "%s[%s]" % (s["n"], r(s["len"]))) + ";\n"
     if k == "block":
         return t + "{\n" + "".join(rstmt(x, structs, ind + 1) for x in s["ss"]) + t + "}\n"
     if k == "if":
@@ -228,4 +234,6 @@ def render(p):
 
 
 def to_json(p):
-    return json.dumps(p, separators=(",", ":"))
+    q = dict(p)
+    q["funcs"] = [{k: v for k, v in f.items() if not k.startswith("_")} for f in p["funcs"]]
+    return json.dumps(q, separators=(",", ":"))
